@@ -7,7 +7,7 @@ From Verif Require Import Model.Val Gen.Src_Clockwork Model.Clockwork Proofs.Clo
 Open Scope Z_scope.
 
 Definition ex_wd : world := [(1, [mkS 1 2 10 [(1, 0, 1)]; mkS 2 4 15 [(1, 0, 1)]])].
-Definition ex_pools : list pool := [mkP 1 [mkW 1 [(1, 11, 2)] [(1, 0)] []]].
+Definition ex_pools : list pool := [mkP 1 [mkW 1 [(1, 11, 2)] [(1, 0)] [] []]].
 Definition ex_t (i d : Z) : task := mkT i 1 d.
 Definition ex_invs : list invocation :=
   [mkInv 0 [ex_t 1 30; ex_t 2 40; ex_t 3 5] ex_pools None;
@@ -57,8 +57,20 @@ Proof. eexists. eexists. split; vm_compute; reflexivity. Qed.
    one through a specific id no longer "fits" a worker holding a single unit, so schedule() returns (nothing is placed,
    the request stays queued) instead of raising *)
 Definition rf_wd : world := [(1, [mkS 1 1 10 [(1, 0, 1); (1, 11, 1)]])].
-Definition rf_inv : invocation := mkInv 0 [mkT 1 1 100] [mkP 1 [mkW 1 [(1, 11, 1); (9, 19, 7)] [(1, 0)] []]] None.
+Definition rf_inv : invocation := mkInv 0 [mkT 1 1 100] [mkP 1 [mkW 1 [(1, 11, 1); (9, 19, 7)] [(1, 0)] [] []]] None.
 Example competing_requests_return :
   exists st', cw_schedule rf_wd false rf_inv (cw_start rf_wd [1]) = Ok (st', mkD [] [] []) /\
               obs_state st' = L [L [I 1; L [L [I 1; L [I 1]]]; L [L [I 1; I 1]]]].
 Proof. eexists. split; vm_compute; reflexivity. Qed.
+
+(* run_load's evictions reach run_inference: model 1 waits with a full on-time batch on a worker that has it loaded and has
+   room; without LOAD/EVICT decisions it is placed; when the same invocation evicts model 1 from the worker (to load model 2)
+   it is not, and the worker's memory (resource 9) is given back on the virtual copy *)
+Definition ev_wd : world := [(1, [mkS 1 1 10 [(1, 0, 1)]]); (2, [mkS 1 1 10 [(1, 0, 1)]])].
+Definition ev_pools : list pool := [mkP 1 [mkW 1 [(1, 11, 2); (9, 19, 0)] [(1, 0)] [] [(1, [(9, 19, 1)])]]].
+Definition ev_inv (ld : option (list load_decision)) : invocation := mkInv 0 [mkT 1 1 100; mkT 2 2 100] ev_pools ld.
+Example eviction_example :
+  (exists st', cw_schedule ev_wd false (ev_inv None) [] = Ok (st', mkD [] [] [mkB 1 (mkW 1 [(1, 11, 2); (9, 19, 0)] [(1, 0)] [] [(1, [(9, 19, 1)])]) 1 (mkS 1 1 10 [(1, 0, 1)]) [mkT 1 1 100] 0])) /\
+  (exists st', cw_schedule ev_wd false (ev_inv (Some [(1, 1, 1, 1); (2, 2, 1, 1)])) [] = Ok (st', mkD [] [(1, 1, 1, 1); (2, 2, 1, 1)] [])) /\
+  load_pools (ev_inv (Some [(1, 1, 1, 1); (2, 2, 1, 1)])) = Ok [mkP 1 [mkW 1 [(1, 11, 2); (9, 19, 1)] [] [] []]].
+Proof. split; [eexists; vm_compute; reflexivity|]. split; [eexists; vm_compute; reflexivity|vm_compute; reflexivity]. Qed.
